@@ -88,7 +88,7 @@ check(
 check(
     "C15",
     "other",
-    "bounded (full 64-bit width) SMT verification of the C fast paths of mypyc's runtime: clang -O1 LLVM IR of the real CPy.h / int_ops.c is regenerated on every run and translated to z3 (bit-vector domain; integer domain with axiomatised truncating division for multiply/divide/remainder). For all operand words: whenever a fast path answers, operands and result are short tagged ints and the value is exactly Python's (+ - * // % & | ^ << >> neg invert, six comparisons, range/overflow predicates, boxing, i64/i32/i16 // and %), error sentinel iff Python raises, and every nsw/shift/division precondition on the way holds (no UB). Counterexamples are replayed by compiling a one-operation module with mypyc and comparing with the interpreter.",
+    "bounded (full 64-bit width) SMT verification of the C fast paths of mypyc's runtime: clang -O1 LLVM IR of the real CPy.h / int_ops.c is regenerated on every run and translated to z3 (bit-vector domain; integer domain with axiomatised truncating division for multiply/divide/remainder). For all operand words: whenever a fast path answers, operands and result are short tagged ints and the value is exactly Python's (+ - * // % & | ^ << >> neg invert, six comparisons, range/overflow predicates, boxing, i64/i32/i16 // and %), error sentinel iff Python raises, and every nsw/shift/division precondition on the way holds (no UB). (K2) the lowered mypyc IR of ~215 one-operation functions (every operator x int/i64/i32/i16/u8, literal operands at representation boundaries, conversions) is validated against Python semantics for all argument values, incl. error exits taken without an exception set. Counterexamples are replayed by compiling a one-operation module with mypyc and comparing with the interpreter.",
     "trusted: z3; clang -O1 IR faithful to the C source; slow paths through PyLong are uninterpreted stubs; canonical-form invariant of boxed ints; floor-division/modulo characterised by the standard quotient-remainder lemma; float kernels and CPyLong_As* outside",
     "translation of compiler IR (LLVM) to SMT, all inputs at full width; z3",
     "DESIGN.md 4/C15",
@@ -166,6 +166,16 @@ check(
     "trusted: z3; op ownership metadata (stolen/is_borrowed/error_kind/is_xdec) and its faithful emission as C; three stated modelling rules (error value transfers nothing, unborrow hands over the aggregate, slot release before set_mem); loops peeled twice; dynamic leak observation, use-after-release of borrowed values and always-defined attributes outside",
     "bounded model checking of compiler IR with z3 (passive form, all paths and error flags)",
     "DESIGN.md 4/C06",
+    engine="mypycir",
+)
+
+check(
+    "C05",
+    "translation_validation",
+    "translation validation restricted to the int / bool / fixed-width fragment: for each function of a generated corpus (120 quick / 1500 thorough functions, <= 3 int parameters, expression trees to depth 3 with if/elif/else, conditional expressions, chained comparisons, and/or/not, augmented assignment, early return, literals) and of the one-operation corpus, the final IR of the real mypyc pipeline is executed symbolically next to the Python source itself on pysem proxies; z3 discharges per path, for ALL argument values (tagged words under the canonical-form invariant), that the compiled function returns the same value in canonical representation or raises the same exception type. Counterexamples are replayed by a real mypyc build.",
+    "trusted: z3; runtime helpers as contracts (vf/irsem.py), their fast paths verified in C15/K1; uninterpreted bitwise/pow2 functions shared by both sides; stops at the IR (C emission, optimisation levels, build modes not modelled); objects/containers/classes/generators outside",
+    "translation validation of compiler IR against source semantics with z3 (symbolic execution of both sides, all inputs)",
+    "DESIGN.md 4/C05",
     engine="mypycir",
 )
 
